@@ -1582,6 +1582,12 @@ def elaboration_failures(out):
 
 def main():
     force_fallback = {}
+    # self-test of the ties: T3_FORCE_FALLBACK="f,g" (or "all") treats these functions as outside the subset
+    import os
+    ff = os.environ.get("T3_FORCE_FALLBACK", "")
+    if ff:
+        names = (FRAGMENT + [g for g, _, _, _ in ITER_FRAGMENT] + [g for g, _, _, _ in DRAIN_FRAGMENT]) if ff == "all" else ff.split(",")
+        force_fallback = {n: "forced (self-test)" for n in names}
     for _ in range(4):
         generate(force_fallback)
         bad = elaboration_failures(sys.argv[2])
